@@ -112,6 +112,7 @@ func (ex *Exec) tryIfConv(fr *frame, cur *ssa.BasicBlock, c *Term) (*ssa.BasicBl
 	}
 	// ----- speculative execution of rhs under pc ∧ cond -----
 	savedPC := len(ex.pc)
+	savedWit := append([]*witness{}, ex.witnesses...)
 	var added []int
 	savedJ := ex.factJournal
 	ex.factJournal = &added
@@ -134,6 +135,7 @@ func (ex *Exec) tryIfConv(fr *frame, cur *ssa.BasicBlock, c *Term) (*ssa.BasicBl
 		ex.curPos = savedPos
 		ex.bounds = savedBounds
 		ex.rngMemo = nil
+		ex.witnesses = savedWit
 	}
 	okRun := true
 	func() {
